@@ -2313,6 +2313,9 @@ class Interp(object):
             if len(vals_) >= 2 and all(is_scalar(v) for v in vals_) and \
                     not all(isinstance(v, int) for v in vals_):
                 return Rat.var(satom(name, *[to_rat(v) for v in vals_]))
+        if name in ('max', 'min') and len(args) == 1 and \
+                'default' in kwargs and len(self.seq(args[0])) == 0:
+            return kwargs['default']
         if name in ('max', 'min', 'sum'):
             vals = args[0] if len(args) == 1 else args
             if all(isinstance(v, int) for v in vals):
